@@ -383,6 +383,13 @@ fn smart_scenario(out: &mut Out, idx: &mut u64, addrs: &[Multiaddr], pre_adv: u6
                     exec(out, sut, &[s("poll")], seed);
                 }
             }
+            // 4: the first started dial succeeds, but the dial is polled only after the next timers fired
+            4 if first => {
+                if let Some(i) = st.first() {
+                    open.retain(|x| x != i);
+                    exec(out, sut, &[s("complete"), format!("{i}:ok")], seed);
+                }
+            }
             2 if first => {
                 if let Some(i) = st.first() {
                     open.retain(|x| x != i);
@@ -551,7 +558,7 @@ pub fn run(args: &Args, out: &mut Out) {
         for li in 0..lists {
             let n = 1 + (li % 6);
             let addrs = smart_addrs(n, &mut rng);
-            for policy in 0..4u8 {
+            for policy in 0..5u8 {
                 smart_scenario(out, &mut idx, &addrs, if li % 3 == 0 { 7 } else { 0 }, policy, args.seed);
             }
         }
